@@ -84,10 +84,100 @@ theorem version_unknown_keyerror (latest : String) (vs : List String) (s : Strin
     resolveVersion latest vs (.str s) = .error .key := by
   simp [resolveVersion, h]
 
+
+/-! ### the whole front end (`applySelection` = what `get_basis` does between composing and the option pipeline) -/
+
+/-- **`None` and the empty selection mean all elements**: only the display name is set -/
+theorem apply_none_or_empty (basis : Dict) (display : String) :
+    applySelection basis display none = .ok (Dict.set basis "name" (.str display))
+    ∧ applySelection basis display (some []) = .ok (Dict.set basis "name" (.str display)) := by
+  constructor <;> rfl
+
+/-- **a selection is the restriction, with `function_types` recomputed for the subset, the display name set, and every other
+field of the composed basis left as it is** -/
+theorem apply_selection_spec (basis els r : Dict) (display : String) (sel : List String) (hne : sel ≠ [])
+    (hels : Dict.get? basis "elements" = some (.obj els))
+    (h : applySelection basis display (some sel) = .ok r) :
+    Dict.get? r "elements" = some (.obj (els.filter (fun kv => sel.contains kv.1)))
+    ∧ Dict.get? r "function_types" = some (Compose.wholeTypes (els.filter (fun kv => sel.contains kv.1)))
+    ∧ Dict.get? r "name" = some (.str display)
+    ∧ (∀ z ∈ sel, Dict.has els z = true)
+    ∧ (∀ k, k ≠ "name" → k ≠ "elements" → k ≠ "function_types" → Dict.get? r k = Dict.get? basis k) := by
+  have h0 : sel.isEmpty = false := by cases sel <;> simp_all
+  have hels' : Dict.get? (Dict.set basis "name" (.str display)) "elements" = some (.obj els) := by
+    rw [Dict.get?_set_other _ _ _ _ (by decide)]; exact hels
+  simp only [applySelection, h0, Bool.false_eq_true, if_false, Compose.getKey, hels', Compose.asObj, bind, Except.bind, pure, Except.pure] at h
+  cases hs : selectElements els sel with
+  | error e => simp [hs] at h
+  | ok els' =>
+    simp only [hs] at h
+    obtain ⟨hr, _, _, hall⟩ := select_is_restriction els els' sel hne hs
+    injection h with h
+    subst h
+    subst hr
+    refine ⟨?_, ?_, ?_, hall, ?_⟩
+    · rw [Dict.get?_set_other _ _ _ _ (by decide), Dict.get?_set_same]
+    · rw [Dict.get?_set_same]
+    · rw [Dict.get?_set_other _ _ _ _ (by decide), Dict.get?_set_other _ _ _ _ (by decide), Dict.get?_set_same]
+    · intro k h1 h2 h3
+      rw [Dict.get?_set_other _ _ _ _ (Ne.symm h3), Dict.get?_set_other _ _ _ _ (Ne.symm h2), Dict.get?_set_other _ _ _ _ (Ne.symm h1)]
+
+/-- **an element the basis does not define ⇒ KeyError from the whole front end, never a partial basis** -/
+theorem apply_missing_keyerror (basis els : Dict) (display : String) (sel : List String) (z : String) (hz : z ∈ sel)
+    (hels : Dict.get? basis "elements" = some (.obj els)) (hmiss : Dict.has els z = false) :
+    applySelection basis display (some sel) = .error .key := by
+  have h0 : sel.isEmpty = false := by cases sel <;> simp_all
+  have hels' : Dict.get? (Dict.set basis "name" (.str display)) "elements" = some (.obj els) := by
+    rw [Dict.get?_set_other _ _ _ _ (by decide)]; exact hels
+  simp only [applySelection, h0, Bool.false_eq_true, if_false, Compose.getKey, hels', Compose.asObj, bind, Except.bind, pure, Except.pure,
+    select_missing_keyerror els sel z hz hmiss]
+
+/-- **restricting a restriction**: selecting `s2 ⊆ s1` from the result for `s1` is selecting `s2` from the full basis
+(so a subset can be taken from a cached larger answer — and the C03/C14 harnesses may restrict a composed basis themselves) -/
+theorem select_select (els r1 : Dict) (s1 s2 : List String) (h1 : selectElements els s1 = .ok r1)
+    (hsub : ∀ z ∈ s2, z ∈ s1) (hne : s2 ≠ []) :
+    selectElements r1 s2 = selectElements els s2 := by
+  have hne1 : s1 ≠ [] := by
+    intro h; subst h
+    cases s2 with
+    | nil => exact hne rfl
+    | cons a as => exact absurd (hsub a (by simp)) (by simp)
+  obtain ⟨hr, _, hmem, hall⟩ := select_is_restriction els r1 s1 hne1 h1
+  have h0 : s2.isEmpty = false := by cases s2 <;> simp_all
+  have hhas : ∀ z ∈ s2, Dict.has r1 z = true ∧ Dict.has els z = true := by
+    intro z hz
+    have hz1 := hsub z hz
+    have he := hall z hz1
+    refine ⟨?_, he⟩
+    simp only [Dict.has, List.any_eq_true] at he ⊢
+    obtain ⟨kv, hkv, hk⟩ := he
+    have hk' : kv.1 = z := by simpa using hk
+    exact ⟨kv, (hmem kv).2 ⟨hkv, hk' ▸ hz1⟩, hk⟩
+  have ha1 : s2.any (fun z => !(Dict.has r1 z)) = false := by
+    rw [List.any_eq_false]; intro z hz; simp [(hhas z hz).1]
+  have ha2 : s2.any (fun z => !(Dict.has els z)) = false := by
+    rw [List.any_eq_false]; intro z hz; simp [(hhas z hz).2]
+  unfold selectElements
+  simp only [h0, ha1, ha2, Bool.false_eq_true, if_false]
+  subst hr
+  rw [List.filter_filter]
+  congr 1
+  apply List.filter_congr
+  intro kv _
+  by_cases hk : s2.contains kv.1 = true
+  · have : s1.contains kv.1 = true := by
+      simp only [List.contains_iff_mem] at hk ⊢; exact hsub _ hk
+    rw [hk, this]; rfl
+  · have hk' : s2.contains kv.1 = false := by simpa using hk
+    rw [hk']; rfl
+
 /-- non-vacuity -/
 def demoEls : Dict := [("8", .str "O"), ("1", .str "H"), ("6", .str "C")]
 example : (selectElements demoEls ["1", "8", "1"]).toOption.map Dict.keys = some ["8", "1"]
     ∧ (selectElements demoEls ["1", "7"]).toOption = none := by decide +kernel
 example : (resolveVersion "1" ["0", "1"] (.int 0)).toOption = some "0" := by decide +kernel
+def demoBasis : Dict := [("name", .str "x"), ("description", .str "d"), ("elements", .obj demoEls), ("function_types", .arr [])]
+example : ((applySelection demoBasis "X" (some ["1"])).toOption.bind (Dict.get? · "elements")).map (fun j => (j.asObj?.getD []).map (·.1)) = some ["1"]
+    ∧ (applySelection demoBasis "X" (some ["7"])).toOption.isNone = true := by decide +kernel
 
 end BSE.Props.C05
